@@ -166,6 +166,21 @@ class BoolInterp(jx.Interp):
         return res
 
 
+class CutInterp(BoolInterp):
+    """additionally records every Bool array produced by an ``and`` equation (the masked dilation stages): candidate
+    cut points for the lemma chain of :func:`_cut_lemmas`."""
+
+    def __init__(self, *a, **k):
+        super().__init__(*a, **k)
+        self.cuts = []
+
+    def p_and(self, e, ins):
+        out = jx.Interp.p_and(self, e, ins)
+        if jx.is_obj(out):
+            self.cuts.append(out)
+        return out
+
+
 # ------------------------------------------------------------------------------------------------ oracle (independent)
 _NB = [(1, 0, 0), (-1, 0, 0), (0, 1, 0), (0, -1, 0), (0, 0, 1), (0, 0, -1)]
 
@@ -297,6 +312,50 @@ def _validate(c, tr, fn, shape, rng, post=lambda o: o):
             c.validate(jx.to_numeric(g).astype(np.float64), np.asarray(w).astype(np.float64), "clean-up on a random design")
 
 
+def closed_set(mask, seed, name):
+    """"connected to a seed cell through face-adjacent mask cells" = member of EVERY set C that contains the seed cells of
+    the mask and is closed under stepping to a face-adjacent mask cell (the least such set is the connected region).
+    Returns fresh Bool cells C and the assumptions saying that C is such a set; an obligation  x => C[idx]  proved under
+    them for arbitrary C says "x only if idx is connected"."""
+    shape = mask.shape
+    C = jx.symarr(name, shape, sort="bool")
+    assume = []
+    for idx in np.ndindex(*shape):
+        if seed[idx]:
+            assume.append(z3.Implies(sc.toz(mask[idx]), C[idx]))
+        for j in _neighbours(idx, shape):
+            assume.append(z3.Implies(z3.And(C[idx], sc.toz(mask[j])), C[j]))
+    return C, assume
+
+
+def _cut_lemmas(c, cuts, C, assume, budget_ms=20000):
+    """proof decomposition for the "only connected cells" direction: for every recorded intermediate Bool array S of the
+    design shape, in program order, ask the solver whether  S subset-of C  follows from the closed-set assumptions and the
+    lemmas established so far; if (and only if) it answers unsat the lemma joins the list.  Every lemma is a solver
+    verdict about the real code's own intermediate value, none is assumed; arrays that are not subsets are skipped."""
+    lem, ok = [], 0
+    for S in cuts:
+        if S.shape != C.shape:
+            continue
+        cl = [z3.Implies(sc.toz(S[idx]), C[idx]) for idx in np.ndindex(*C.shape) if not (isinstance(S[idx], (bool, np.bool_)) and not S[idx])]
+        if not cl:
+            continue
+        s = z3.Solver()
+        s.set("timeout", budget_ms)
+        s.add(*assume)
+        s.add(*lem)
+        s.add(z3.Not(z3.And(*cl)))
+        t0 = time.time()
+        r = s.check()
+        c.solver_s += time.time() - t0
+        c.queries += 1
+        if r == z3.unsat:
+            lem += cl
+            ok += 1
+    c.extra["cutpoint_lemmas"] = c.extra.get("cutpoint_lemmas", 0) + ok
+    return lem
+
+
 def _prove_upper(c, name, cell, hint_cell, full_cell, replay, key):
     """obligation  cell => full_cell  ("only connected cells").  ``full_cell`` is the (#cells-1)-step iterate of the oracle;
     ``hint_cell`` is an earlier iterate of the same monotone chain (R_k => R_{k+1} holds by construction of reach_sym), so
@@ -321,7 +380,7 @@ def _flood_case(c, case, what, fn, seed, invert):
     m = jx.symarr("m", shape, sort="bool")
     c.symvars += N
     t0 = time.time()
-    it = BoolInterp()
+    it = CutInterp()
     out, tr = jx.call(fn, m, interp=it)
     c.interp_s += time.time() - t0
     rng = np.random.default_rng(c.seed + 23)
@@ -346,9 +405,10 @@ def _flood_case(c, case, what, fn, seed, invert):
         return replay
 
     o, rp = outs[0], replay_for(0)
-    hint = hist[min(3 * n_sweeps, N - 1)]
+    C, closed = closed_set(mask, seed, "C")
+    closed = closed + _cut_lemmas(c, it.cuts, C, closed)
     for idx in np.ndindex(*shape):
-        _prove_upper(c, f"{what}:sound{list(idx)}", o[idx], hint[idx], full[idx], rp, f"{what}:keeps_unconnected")
+        c.prove(f"{what}:sound{list(idx)}", z3.Implies(sc.toz(o[idx]), C[idx]), closed, rp, key=f"{what}:keeps_unconnected")
     kdef = f"{what}:one_layer_all_removed" if (cls == "one_layer" and not invert) else None
     for idx in np.ndindex(*shape):
         c.prove(f"{what}:near{list(idx)}", z3.Implies(sc.toz(near[idx]), sc.toz(o[idx])), (), rp,
@@ -367,7 +427,7 @@ def _flood_case(c, case, what, fn, seed, invert):
               if N > 1 and not seed.all() else True)
     far = [idx for idx in np.ndindex(*shape) if not seed[idx]]
     if far and not (cls == "one_layer" and not invert):
-        c.witness("a cell away from the seed cells is kept", _any(sc.toz(o[idx]) for idx in far))
+        c.witness("a cell away from the seed cells is kept (closed-set assumptions and lemmas satisfiable)", _any(sc.toz(o[idx]) for idx in far), closed)
     c.extra["eqns"] = tr.n_eqns
     c.bounds.update(shape=list(shape), sweeps=n_sweeps, oracle_iterations=N - 1)
 
